@@ -73,8 +73,8 @@ RenderObj(s, id, fuel) ==
   IF o.kind = "map"
   THEN [kind |-> "map", elems |-> <<>>, n |-> 0,
         ents |-> [i \in 1..Len(KEYS) |-> IF o.ents[i].present /\ fuel > 0
-                                         THEN [k |-> KEYS[i], present |-> TRUE, v |-> RenderVal(s, o.ents[i].v, fuel - 1)]
-                                         ELSE [k |-> KEYS[i], present |-> o.ents[i].present, v |-> [kind |-> "cut", elems |-> <<>>, n |-> 0, ents |-> <<>>]]]]
+                                         THEN [k |-> KEYS[i], present |-> TRUE, sym |-> o.ents[i].sym, v |-> RenderVal(s, o.ents[i].v, fuel - 1)]
+                                         ELSE [k |-> KEYS[i], present |-> o.ents[i].present, sym |-> o.ents[i].sym, v |-> [kind |-> "cut", elems |-> <<>>, n |-> 0, ents |-> <<>>]]]]
   ELSE [kind |-> o.kind, n |-> 0, ents |-> <<>>,
         elems |-> [k \in 1..o.len |-> IF fuel > 0 THEN RenderVal(s, s.back[o.b][o.off + k], fuel - 1)
                                       ELSE [kind |-> "cut", elems |-> <<>>, n |-> 0, ents |-> <<>>]]]
@@ -101,7 +101,7 @@ DefMut(s, v, what)    == Step(s, v, what, TRUE)
 
 Init == h = LET s0 == [back |-> <<>>, obj |-> <<>>, glob |-> <<>>, log |-> <<>>, nops |-> 0, lastmut |-> FALSE, emitted |-> FALSE]
                 \* g1: the quoted program literal '(3 1 2) (sealed); g2: (vector 5 4 6 2); g3: (list 7 9 8);
-                \* g4: (sorted-map "b" 1 'a 2)
+                \* g4: (sorted-map "b" 1 "a" 2) - no key has been given as a symbol yet
                 s1 == Alloc(s0, "list", <<VInt(3), VInt(1), VInt(2)>>, 3)
                 s2 == [s1 EXCEPT !.obj[1].sealed = TRUE, !.glob = <<VRef(1)>>]
                 s3 == Alloc(s2, "vec", <<VInt(5), VInt(4), VInt(6), VInt(2)>>, 4)
@@ -109,7 +109,7 @@ Init == h = LET s0 == [back |-> <<>>, obj |-> <<>>, glob |-> <<>>, log |-> <<>>,
                 s5 == Alloc(s4, "list", <<VInt(7), VInt(9), VInt(8)>>, 3)
                 s6 == [s5 EXCEPT !.glob = Append(@, VRef(3))]
                 m  == [EmptyEnts EXCEPT ![2] = [present |-> TRUE, v |-> VInt(1), sym |-> FALSE],
-                                        ![1] = [present |-> TRUE, v |-> VInt(2), sym |-> TRUE]]
+                                        ![1] = [present |-> TRUE, v |-> VInt(2), sym |-> FALSE]]
             IN [s6 EXCEPT !.obj = Append(@, MapObj(m)), !.glob = Append(@, VRef(4))]
 
 NG == Len(h.glob)
